@@ -21,7 +21,7 @@ ASSUMPTIONS = ['vt.refsem truth tables; vt.wf']
 ALLOWED = {'INPUT', 'NOT', 'AND', 'OR', 'NAND', 'NOR', 'XOR', 'NXOR', 'IFF'}
 CONVERTIBLE = ['LT', 'LEQ', 'GT', 'GEQ', 'LIFF', 'RIFF', 'LNOT', 'RNOT', 'ALWAYS_TRUE', 'ALWAYS_FALSE']
 REQUIRED = {'mon:into_bench.checked': 200, 'mon:into_graphviz_digraph.checked': 20, 'with_blocks': 50,
-            'rewritten_in_block': 20, 'const_with_operands': 10, 'identical_operands': 10}
+            'rewritten_in_block': 20, 'const_with_operands': 10, 'identical_operands': 10, 'reconverted_after_edit': 30}
 REQUIRED.update({'rewritten:' + t: 5 for t in CONVERTIBLE})
 
 CUR = {'ctx': None, 'case': None}
@@ -174,6 +174,40 @@ def check_case(case, ctx):
         c.into_bench()
     except Exception as e:
         ctx.unexpected('Circuit.into_bench', e, case)
+    if case.get('reconvert'):
+        # convert - edit through public calls - convert again: labels of converted gates are given back to new
+        # comparison / one-sided / constant gates over other operands (the old gate is renamed away or removed)
+        gt = netgen.gate_type_by_name()
+        order = list(net.gates)
+        made = 0
+        with monitor.suspended():
+            try:
+                for X in rng.sample(order, len(order)):
+                    t, ops = net.gates[X]
+                    if t not in CONVERTIBLE or not c.has_gate(X) or made >= 2:
+                        continue
+                    pool = order[:order.index(X)] or list(net.inputs)
+                    if not pool:
+                        continue
+                    if not c.get_gate_users(X) and X not in c.outputs and rng.random() < 0.5:
+                        c.remove_gate(X)
+                    else:
+                        old_l = 'old%d_%s' % (made, X)
+                        if c.has_gate(old_l):
+                            continue
+                        c.rename_gate(X, old_l)
+                    c.emplace_gate(X, gt[t], tuple(rng.choice(pool) for _ in ops))
+                    c.set_outputs(list(c.outputs) + [X])
+                    made += 1
+            except Exception as e:
+                ctx.count('reconvert_edit_failed:' + type(e).__name__)
+                made = 0
+        if made:
+            ctx.count('reconverted_after_edit')
+            try:
+                c.into_bench()
+            except Exception as e:
+                ctx.unexpected('Circuit.into_bench', e, case)
     ctx.case(refsem.structural_hash(net) + repr(sorted(case.get('blocks', {}))), will_rewrite, cls='shape:' + case['shape'],
              sample={'net': case['net'], 'blocks': case.get('blocks', {})} if will_rewrite else None)
 
@@ -192,7 +226,7 @@ def gen_case(rng, spec):
             gs = rng.sample(inner, rng.randint(1, min(4, len(inner))))
             blocks['b%d' % k] = [gs, gs[:1], None]
     return {'kind': 'random', 'shape': shape, 'net': netgen.describe(net), 'rseed': rng.getrandbits(32),
-            'shuffle': rng.random() < 0.3, 'blocks': blocks, 'graphviz': rng.random() < 0.1}
+            'shuffle': rng.random() < 0.3, 'blocks': blocks, 'graphviz': rng.random() < 0.1, 'reconvert': rng.random() < 0.3}
 
 
 def run_shard(spec, ctx):
